@@ -38,8 +38,12 @@ type Client struct {
 	cond   *sync.Cond
 	evs    []Event
 	hshake bool
-	closed bool // read loop ended (server closed / we closed)
-	kicked bool
+	nhs    int // handshake responses received
+	// NotReady: the client sent a Handshake packet again and has not acknowledged it yet - the
+	// server ignores data packets (so no sentinel can be answered)
+	NotReady bool
+	closed   bool // read loop ended (server closed / we closed)
+	kicked   bool
 
 	NetId uint32 // learned from the first sentinel answer (0 = unknown)
 	// SlowRead makes the read loop pause this long after every data message (a slow client:
@@ -111,6 +115,34 @@ func (c *Client) Notify(route string, data []byte) error {
 	return c.sendPacket(packet.Data, b)
 }
 
+// Rehandshake sends a Handshake packet on the established connection and waits for the
+// handshake response: the server has then processed everything sent before and the session is
+// back in the handshake state until Ack.
+func (c *Client) Rehandshake() error {
+	c.mu.Lock()
+	before := c.nhs
+	c.mu.Unlock()
+	hs, _ := json.Marshal(map[string]any{
+		"sys":  map[string]any{"platform": "verif", "libVersion": "0", "clientBuildNumber": "0", "clientVersion": "0"},
+		"user": map[string]any{},
+	})
+	if err := c.sendPacket(packet.Handshake, hs); err != nil {
+		return err
+	}
+	if !c.waitFor(func() bool { return c.nhs > before }, ioTimeout) {
+		return errors.New("e2e client: no response to the second handshake")
+	}
+	c.NotReady = true
+	return nil
+}
+
+// Ack sends a HandshakeAck packet.
+func (c *Client) Ack() error {
+	err := c.sendPacket(packet.HandshakeAck, nil)
+	c.NotReady = false
+	return err
+}
+
 // Heartbeat sends a heartbeat packet.
 func (c *Client) Heartbeat() error { return c.sendPacket(packet.Heartbeat, nil) }
 
@@ -145,6 +177,7 @@ func (c *Client) readLoop() {
 		case packet.Handshake:
 			c.mu.Lock()
 			c.hshake = true
+			c.nhs++
 			c.cond.Broadcast()
 			c.mu.Unlock()
 		case packet.Heartbeat:
